@@ -56,6 +56,6 @@ ASSUME FcRoundTrip
 
 (* constant values for the configurations (negative numbers cannot be written in .cfg) *)
 QSaps == {-1, 62}
-TSaps == {-1, 0, 1, 50, 54, 60, 61, 62, 255}
+TSaps == {-1, 0, 54, 62, 255}
 TSubst == Byte
 =============================================================================
